@@ -424,3 +424,118 @@ func (t *tr) makeSlice(c *ast.CallExpr) (string, bool) {
 	}
 	return "(List.replicate " + n + " " + zeroOf(elemTy(ty)) + ")", true
 }
+
+// aliasCheck refuses the uses of slices under which the value semantics of the translation (a slice is a
+// Lean list) would differ from Go's reference semantics: a slice that is assigned through an index must be
+// a receiver field or a local variable that only ever holds the result of `make`, and it may not be copied
+// (`u := s`, `x.f = s`) or passed to a function other than len.
+func aliasCheck(recv string, params map[string]bool, stmts []ast.Stmt) string {
+	bases := map[string]ast.Expr{}
+	for _, s := range stmts {
+		ast.Inspect(s, func(n ast.Node) bool {
+			var lhs []ast.Expr
+			switch a := n.(type) {
+			case *ast.AssignStmt:
+				lhs = a.Lhs
+			case *ast.IncDecStmt:
+				lhs = []ast.Expr{a.X}
+			}
+			for _, l := range lhs {
+				if _, ok := l.(*ast.IndexExpr); ok {
+					b := stripIndex(l)
+					if m, ok := mangle(b); ok {
+						bases[m] = b
+					} else {
+						bases["?"] = b
+					}
+				}
+			}
+			return true
+		})
+	}
+	if len(bases) == 0 {
+		return ""
+	}
+	isMake := func(e ast.Expr) bool {
+		c, ok := e.(*ast.CallExpr)
+		return ok && src(c.Fun) == "make"
+	}
+	inB := func(e ast.Expr) (string, bool) {
+		if p, ok := e.(*ast.ParenExpr); ok {
+			e = p.X
+		}
+		m, ok := mangle(e)
+		if !ok {
+			return "", false
+		}
+		_, is := bases[m]
+		return m, is
+	}
+	bad := ""
+	for m, b := range bases {
+		if m == "?" {
+			return "assignment through an index of " + src(b)
+		}
+		if id, ok := b.(*ast.Ident); ok {
+			if params[id.Name] {
+				bad = "assignment through an index of the parameter " + id.Name
+			}
+		} else if rootIdent(b) != recv || recv == "" {
+			bad = "assignment through an index of " + src(b)
+		}
+	}
+	for _, s := range stmts {
+		ast.Inspect(s, func(n ast.Node) bool {
+			switch a := n.(type) {
+			case *ast.AssignStmt:
+				for i, r := range a.Rhs {
+					if m, ok := inB(r); ok {
+						bad = "slice " + m + " is copied and also assigned through an index"
+					}
+					if len(a.Lhs) == len(a.Rhs) {
+						if id, ok := a.Lhs[i].(*ast.Ident); ok {
+							if _, is := bases[id.Name]; is && !isMake(r) {
+								bad = "slice " + id.Name + " is assigned through an index but does not come from make"
+							}
+						}
+					}
+				}
+				if len(a.Lhs) != len(a.Rhs) {
+					for _, l := range a.Lhs {
+						if id, ok := l.(*ast.Ident); ok {
+							if _, is := bases[id.Name]; is {
+								bad = "slice " + id.Name + " is assigned through an index but does not come from make"
+							}
+						}
+					}
+				}
+			case *ast.ValueSpec:
+				for _, id := range a.Names {
+					if _, is := bases[id.Name]; is {
+						bad = "slice " + id.Name + " is assigned through an index but does not come from make"
+					}
+				}
+			case *ast.RangeStmt:
+				for _, l := range []ast.Expr{a.Key, a.Value} {
+					if id, ok := l.(*ast.Ident); ok {
+						if _, is := bases[id.Name]; is {
+							bad = "slice " + id.Name + " is a range variable and assigned through an index"
+						}
+					}
+				}
+			case *ast.CallExpr:
+				if f := src(a.Fun); f != "len" {
+					for _, x := range a.Args {
+						if m, ok := inB(x); ok {
+							bad = "slice " + m + " is passed to " + f + " and also assigned through an index"
+						}
+					}
+				}
+			case *ast.KeyValueExpr:
+				// (a struct literal holding the slice: allowed, it is the returned value)
+			}
+			return true
+		})
+	}
+	return bad
+}
